@@ -1543,6 +1543,21 @@ static void gen_mutations(CorpusFile const &f, KindSets const &K, bool th, std::
       mu.key = lk;
       mu.text = T.substr(0, n.key_off) + m + T.substr(n.key_off + n.key.size());
       M.push_back(mu);
+      // the same with the block's closing brace on the line of the misspelled item, when it is the last one of its block
+      // (strictness must not depend on where the brace is)
+      if (n.kind != 2) {
+        size_t e = n.line_e;
+        size_t q = T.find_first_not_of(" \t\r\n", e);
+        if (q != std::string::npos && T[q] == '}' && pr.second.size() > 0) {
+          Mut mb = mu;
+          mb.shape += "+closing-brace-on-the-same-line";
+          size_t cut_b = T.find_last_not_of(" \t\r\n", q - 1) + 1;
+          std::string joined = T.substr(0, cut_b) + " " + T.substr(q);
+          // re-apply the misspelling (the key lies before the cut)
+          mb.text = joined.substr(0, n.key_off) + m + joined.substr(n.key_off + n.key.size());
+          M.push_back(mb);
+        }
+      }
     }
     // --- transplant (copy) into a context where the keyword is not valid ---
     {
